@@ -82,9 +82,11 @@ func (s *Stats) merge(o *Stats) {
 }
 
 type item struct {
-	Prefix []int `json:"p"`
-	Widths []int `json:"w"`
-	Cost   int   `json:"c"`
+	Prefix []int  `json:"p"`
+	Widths []int  `json:"w"`
+	Cost   int    `json:"c"`
+	Scn    string `json:"s,omitempty"`
+	Whole  bool   `json:"whole,omitempty"`
 }
 
 type explorer struct {
@@ -227,10 +229,11 @@ func Explore(scn *Scenario, o ExploreOpts) *Stats {
 		e.sample()
 		return &e.stats
 	}
-	// expand breadth-first in the master until there are enough subtrees
+	// expand breadth-first in the master until there are enough subtrees;
+	// small scenarios finish here without any worker
 	queue := []item{{}}
 	target := o.Workers * 24
-	for len(queue) > 0 && len(queue) < target && !e.stopNow() {
+	for len(queue) > 0 && (len(queue) < target || e.stats.Executions < 2000) && !e.stopNow() {
 		it := queue[0]
 		queue = queue[1:]
 		queue = append(queue, e.runOne(it)...)
@@ -253,7 +256,7 @@ func Explore(scn *Scenario, o ExploreOpts) *Stats {
 		go func() {
 			defer wg.Done()
 			cmd := exec.Command(os.Args[0])
-			cmd.Env = append(os.Environ(), "VRT_WORKER="+scn.Name, fmt.Sprintf("VRT_DEADLINE=%d", o.Deadline.Unix()), fmt.Sprintf("VRT_RECHECK=%d", o.Recheck), "GOMAXPROCS=2")
+			cmd.Env = append(os.Environ(), "VRT_WORKER=1", fmt.Sprintf("VRT_DEADLINE=%d", o.Deadline.Unix()), fmt.Sprintf("VRT_RECHECK=%d", o.Recheck), "GOMAXPROCS=1", "GOGC=400")
 			cmd.Stderr = os.Stderr
 			in, _ := cmd.StdinPipe()
 			out, _ := cmd.StdoutPipe()
@@ -272,6 +275,7 @@ func Explore(scn *Scenario, o ExploreOpts) *Stats {
 					break
 				}
 				it := queue[next]
+				it.Scn = scn.Name
 				next++
 				mu.Unlock()
 				if err := enc.Encode(it); err != nil {
@@ -347,18 +351,13 @@ func w0threads(r *Result) map[int16]bool {
 }
 
 // ServeWorker must be called at the start of main by harness binaries. If the
-// process is a worker it serves subtree requests on stdin and exits.
+// process is a worker it serves requests on stdin (one JSON item per line:
+// either a subtree of a scenario or a whole scenario) and exits at EOF.
 func ServeWorker(scenarios func(name string) *Scenario) {
-	name := os.Getenv("VRT_WORKER")
-	if name == "" {
+	if os.Getenv("VRT_WORKER") == "" {
 		return
 	}
-	runtime.GOMAXPROCS(2)
-	scn := scenarios(name)
-	if scn == nil {
-		fmt.Fprintf(os.Stderr, "worker: unknown scenario %q\n", name)
-		os.Exit(2)
-	}
+	runtime.GOMAXPROCS(1)
 	var dl time.Time
 	var u int64
 	fmt.Sscanf(os.Getenv("VRT_DEADLINE"), "%d", &u)
@@ -384,13 +383,86 @@ func ServeWorker(scenarios func(name string) *Scenario) {
 			fmt.Fprintf(os.Stderr, "worker: bad item: %v\n", err)
 			os.Exit(2)
 		}
+		scn := scenarios(it.Scn)
+		if scn == nil {
+			fmt.Fprintf(os.Stderr, "worker: unknown scenario %q\n", it.Scn)
+			os.Exit(2)
+		}
 		e := &explorer{scn: scn, deadline: dl, recheck: recheck, maxViol: 3}
-		e.dfs(it)
+		if it.Whole {
+			e.dfs(item{})
+			e.sample()
+		} else {
+			e.dfs(it)
+		}
 		b, _ := json.Marshal(&e.stats)
 		out.Write(b)
 		out.WriteByte('\n')
 		out.Flush()
 	}
+}
+
+// ExploreMany explores whole scenarios in parallel worker processes (one
+// scenario per request). Results are returned in scenario order.
+func ExploreMany(scns []*Scenario, o ExploreOpts) ([]*Stats, string) {
+	res := make([]*Stats, len(scns))
+	var mu sync.Mutex
+	next := 0
+	infra := ""
+	var wg sync.WaitGroup
+	nw := o.Workers
+	if nw > len(scns) {
+		nw = len(scns)
+	}
+	for k := 0; k < nw; k++ {
+		wg.Add(1)
+		go func() {
+			defer wg.Done()
+			cmd := exec.Command(os.Args[0])
+			cmd.Env = append(os.Environ(), "VRT_WORKER=1", fmt.Sprintf("VRT_DEADLINE=%d", o.Deadline.Unix()), fmt.Sprintf("VRT_RECHECK=%d", o.Recheck), "GOMAXPROCS=1", "GOGC=400")
+			cmd.Stderr = os.Stderr
+			in, _ := cmd.StdinPipe()
+			outp, _ := cmd.StdoutPipe()
+			if err := cmd.Start(); err != nil {
+				mu.Lock()
+				infra = "worker start: " + err.Error()
+				mu.Unlock()
+				return
+			}
+			rd := bufio.NewReaderSize(outp, 1<<20)
+			enc := json.NewEncoder(in)
+			for {
+				mu.Lock()
+				if infra != "" || next >= len(scns) || (!o.Deadline.IsZero() && time.Now().After(o.Deadline)) {
+					mu.Unlock()
+					break
+				}
+				i := next
+				next++
+				mu.Unlock()
+				enc.Encode(item{Scn: scns[i].Name, Whole: true})
+				line, err := rd.ReadBytes('\n')
+				var st Stats
+				if err == nil {
+					err = json.Unmarshal(line, &st)
+				}
+				mu.Lock()
+				if err != nil {
+					infra = fmt.Sprintf("worker failed on scenario %q: %v", scns[i].Name, err)
+				} else {
+					res[i] = &st
+					if st.Infra != "" {
+						infra = st.Infra
+					}
+				}
+				mu.Unlock()
+			}
+			in.Close()
+			cmd.Wait()
+		}()
+	}
+	wg.Wait()
+	return res, infra
 }
 
 // Replay re-executes one recorded choice sequence verbosely.
